@@ -1039,6 +1039,90 @@ def check_parfft(res, facts):
     (rule.ok if ok and rems else rule.bad)(key, "asserts log_n >= log_cpus and len % num_threads == 0" if ok and rems else "missing assertion (guards %s)" % [show(g)[:60] for g in guards], par.loc)
 
 
+# ---- R-LAGRANGE -------------------------------------------------------------------------------------------
+
+def check_lagrange(res, facts):
+    """evaluate_all_lagrange_coefficients: L_i(tau) = Z(tau) g^i / (m h^(m-1) (tau - h g^i)) off the domain, computed as the
+    batch inverse of l_i * (tau - h g^i) with l_0 = m h^(m-1) / Z(tau), l_(i+1) = l_i / g; on the domain the one-hot
+    vector at the index with h g^i = tau."""
+    rule = res.rule("R-LAGRANGE", "Lagrange coefficients: recurrences l_i, -h g^i, product l_i (tau - h g^i) inverted in batch; one-hot vector when tau is in the domain", 2)
+    fs = [f for f in facts.fns(unit="ws", crate="ark_poly") if f.id.endswith("EvaluationDomain::evaluate_all_lagrange_coefficients")]
+    if not fs:
+        rule.bad("ark_poly|evaluate_all_lagrange_coefficients", "anchor missing")
+        return
+    f = fs[0]
+    EM = lambda o: norm(DF.expr(f, o, depth=40, mut_as_phi=True))
+    E0 = lambda o: norm(DF.expr(f, o, depth=40))
+    tau = A(2)
+    Zt = C("evaluate_vanishing_polynomial", A(1), tau)
+    h, g, ginv, m_fe, m = C("coset_offset", A(1)), C("group_gen", A(1)), C("group_gen_inv", A(1)), C("size_as_field_element", A(1)), C("size", A(1))
+    steps = {}
+    for bb, t in f.calls():
+        if t["f"].get("name") == "mul_assign":
+            a0 = EM(t["args"][0])
+            if isinstance(a0, tuple) and a0[0] == "phi":
+                steps.setdefault(a0[1], []).append((bb, EM(t["args"][1])))
+
+    def init(l):
+        return E0({"c": l})
+    stores = []
+    for bi, si, s_ in f.stmts():
+        if "d" in s_:
+            l, projs = place_parts(s_["d"])
+            if projs and projs[0] == "*" and s_["r"]["k"] == "use":
+                stores.append((bi, EM(s_["r"]["o"])))
+    # --- off-domain arm
+    key = "ark_poly|evaluate_all_lagrange_coefficients|off-domain"
+    problems = []
+    prod = [(bi, v) for bi, v in stores if isinstance(v, tuple) and v[0] == "call" and v[1] == "mul"]
+    if len(prod) != 1:
+        problems.append("expected one store of l_i * r_i, found %s" % [show(v) for _, v in stores])
+    else:
+        bi, v = prod[0]
+        a, b = v[2]
+        if not (isinstance(a, tuple) and a[0] == "phi"):
+            a, b = b, a
+        ok_r = isinstance(b, tuple) and b[0] == "call" and b[1] == "add" and tau in b[2] and any(isinstance(x, tuple) and x[0] == "phi" for x in b[2])
+        if not (isinstance(a, tuple) and a[0] == "phi" and ok_r):
+            problems.append("stored value is %s, expected l_i * (tau + (-h g^i))" % show(v))
+        else:
+            l_loc = a[1]
+            n_loc = [x for x in b[2] if isinstance(x, tuple) and x[0] == "phi"][0][1]
+            li = init(l_loc)
+            v0 = [("call", "mul", (m_fe, ("pow", h, ("bin", "Sub", m, 1)))), ("call", "mul", (("pow", h, ("bin", "Sub", m, 1)), m_fe))]
+            want_l = [("call", "mul", (("inv", Zt), x)) for x in v0] + [("call", "mul", (x, ("inv", Zt))) for x in v0]
+            if li not in want_l:
+                problems.append("l_0 = %s, expected Z(tau)^-1 * size * offset^(size-1)" % show(li))
+            if [e for _, e in steps.get(l_loc, [])] != [ginv]:
+                problems.append("l_i is advanced by %s, expected group_gen_inv" % [show(e) for _, e in steps.get(l_loc, [])])
+            if init(n_loc) != C("neg", h):
+                problems.append("-h g^i starts at %s, expected -offset" % show(init(n_loc)))
+            if [e for _, e in steps.get(n_loc, [])] != [g]:
+                problems.append("-h g^i is advanced by %s, expected group_gen" % [show(e) for _, e in steps.get(n_loc, [])])
+            if any(bb < bi for bb, _ in steps.get(l_loc, []) + steps.get(n_loc, [])):
+                problems.append("the recurrences are advanced before the product of this index is stored")
+            if not any(t["f"].get("name") == "batch_inversion" for _, t in f.calls()):
+                problems.append("the products are never inverted")
+    (rule.bad if problems else rule.ok)(key, "; ".join(problems) if problems else "coeff_i = l_i (tau - h g^i), l_0 = m h^(m-1)/Z(tau), l_(i+1) = l_i/g, batch-inverted: L_i = Z(tau) g^i / (m h^(m-1) (tau - h g^i))", f.loc)
+    # --- on-domain arm
+    key = "ark_poly|evaluate_all_lagrange_coefficients|on-domain"
+    problems = []
+    sws = [EM(b["t"]["o"]) for b in f.bbs if b["t"]["k"] == "switch"]
+    if C("is_zero", Zt) not in sws:
+        problems.append("the arms are not selected by Z(tau) == 0")
+    ones = [bi for bi, v in stores if v == 1]
+    eqs = [c for c in sws if isinstance(c, tuple) and c[0] == "call" and c[1] == "eq" and tau in c[2] and any(isinstance(x, tuple) and x[0] == "phi" for x in c[2])]
+    if len(ones) != 1 or len(eqs) != 1:
+        problems.append("no one-hot assignment guarded by omega_i == tau")
+    else:
+        w_loc = [x for x in eqs[0][2] if isinstance(x, tuple) and x[0] == "phi"][0][1]
+        if init(w_loc) != h:
+            problems.append("the scan starts at %s, expected the coset offset" % show(init(w_loc)))
+        if [e for _, e in steps.get(w_loc, [])] != [g]:
+            problems.append("the scan advances by %s, expected group_gen" % [show(e) for _, e in steps.get(w_loc, [])])
+    (rule.bad if problems else rule.ok)(key, "; ".join(problems) if problems else "Z(tau) = 0: u_i = 1 at the first i with offset*g^i == tau, zero elsewhere", f.loc)
+
+
 def run(ctx, res):
     units = ["ws", "par"]
     facts = ctx.facts(units)
@@ -1053,6 +1137,7 @@ def run(ctx, res):
     check_vanish(res, facts)
     check_pass(res, facts)
     check_parfft(res, facts)
+    check_lagrange(res, facts)
     return {
         "level": "other",
         "explanation": "Expression reconstruction over MIR (single-definition dataflow, `?`/borrow/cast transparent), control-flow reachability and symbolic evaluation of straight-line kernels, applied to the evaluation-domain code of ark-poly and FftField::get_root_of_unity: constructors derive every field from the right source, fail on the subgroup-size condition, accessors and the General wrapper forward correctly, forward/inverse transforms are wired to group_gen / group_gen_inv with coset scaling on the right arm and side, the butterfly kernels and the power-distribution loop bodies are proved as ring identities, the root-of-unity derivation performs (configured - requested) adicity many powerings, and the vanishing polynomial / element / iterator definitions match. That the butterfly schedule, bit-reversal, degree-aware duplication and mixed-radix passes compose to the DFT for every size and input length, and the Lagrange-coefficient loop, are NOT decided (index arithmetic over run-time sizes).",
